@@ -82,13 +82,18 @@ def rule_M2(F, R):
         muts = [e for e in p.events if re.search(r"HashMap::<K, V, S, A>::(insert|remove)$", e["callee"])]
         push = [e for e in p.events if e["callee"].endswith("Vec::<T, A>::push")]
         isome = any(a == ("variant", ("P", "value")) and o == "Some" for (a, o, _bb) in p.atoms)
-        if len(gets) != 1 or len(muts) != 1 or len(push) != 1:
+        if len(gets) > 1 or len(muts) != 1 or len(push) != 1:
             R.violation("M2", b["path"], "update-shape", "TaskData::update is not one lookup, one insert/remove and one recorded operation", w)
             continue
         op = push[0]["args"][1]
         f = dict(op[3]) if op[0] == "A" else {}
         prop = ("P", "property")
-        ok_old = _has(f.get("old_value", ("?",)), lambda v: v[0] == "C" and v[1] == gets[0]["id"]) and gets[0]["id"] < muts[0]["id"] and _has(gets[0]["args"], lambda v: v == prop)
+        if gets:
+            ok_old = _has(f.get("old_value", ("?",)), lambda v: v[0] == "C" and v[1] == gets[0]["id"]) and gets[0]["id"] < muts[0]["id"] and _has(gets[0]["args"], lambda v: v == prop)
+        else:
+            # HashMap::insert / remove return the value previously stored under the key: that is the old value
+            ov = f.get("old_value", ("?",))
+            ok_old = (ov[0] == "C" and ov[1] == muts[0]["id"]) and _has(muts[0]["args"], lambda v: v == prop)
         ok_new = f.get("value") == ("P", "value") and f.get("property") == prop
         ok_mut = (muts[0]["callee"].endswith("::insert") if isome else muts[0]["callee"].endswith("::remove")) and _has(muts[0]["args"], lambda v: v == prop)
         ok_uuid = _has(f.get("uuid", ("?",)), lambda v: v[0] == "F" and v[3] == "uuid")
@@ -112,7 +117,7 @@ def rule_M2(F, R):
     b, paths = _paths(F, R, "M2", TD + "::create")
     for p in paths:
         push = [e for e in p.events if e["callee"].endswith("Vec::<T, A>::push")]
-        ok = len(push) == 1 and push[0]["args"][1] == ("A", "operation::Operation", "Create", (("uuid", ("P", "uuid")),)) and p.ret[0] == "A" and dict(p.ret[3]).get("uuid") == ("P", "uuid")
+        ok = len(push) == 1 and push[0]["args"][1] == ("A", "operation::Operation", "Create", (("uuid", ("P", "uuid")),)) and ((p.ret[0] == "A" and dict(p.ret[3]).get("uuid") == ("P", "uuid")) or (p.ret[0] == "C" and isinstance(p.ret[2], str) and p.ret[2].endswith("TaskData::new") and p.ret[3] and p.ret[3][0] == ("P", "uuid")))
         if ok:
             R.ok("M2", "create: push Create{uuid}; returns an empty TaskData{uuid}", where(b))
         else:
